@@ -23,7 +23,8 @@ RULE = (
 ASSUMPTIONS = ["the scanner's notion of measure/row (split on '&', ',', lines) is the documented text format"]
 MONITORS = ["readback", "structure", "fixed_point"]
 REQUIRED = ["mixed_denominators", "skipped_measure", "player0_absent", "two_players_absent", "empty_stream",
-            "off_grid_beat", "from_text", "corpus_chart", "denominators_share_factor"]
+            "off_grid_beat", "from_text", "corpus_chart", "denominators_share_factor", "stream_given_as_notedata",
+            "beats_alike_to_three_decimals"]
 
 
 def anchors():
@@ -90,13 +91,24 @@ def check(ctx, case):
     else:
         columns = case["columns"]
         stream = [Note(Beat(num, den), c, NoteType(t), p, k) for p, num, den, c, t, k in case["notes"]]
+    seen3 = {}
+    for n in stream:
+        key = (n.column, n.note_type, f"{float(n.beat % 4):.3f}")
+        if key in seen3 and seen3[key] != n.beat % 4:
+            ctx.feat("beats_alike_to_three_decimals")
+        seen3.setdefault(key, n.beat % 4)
     ctx.begin(case, nontrivial=len(stream) >= 2,
               sample={"kind": case["kind"], "columns": columns, "n_notes": len(stream),
                       "notes": case.get("notes", [])[:8], "text": case.get("text", "")[:200]})
     if not stream:
         ctx.feat("empty_stream")
 
-    nd = NoteData.from_notes(iter(stream), columns)
+    if case["kind"] == "text" and ctx.evaluations % 2:
+        # the decoded chart object itself as the stream (an Iterable[Note] like any other)
+        nd = NoteData.from_notes(nd0, columns)
+        ctx.feat("stream_given_as_notedata")
+    else:
+        nd = NoteData.from_notes(iter(stream), columns)
     text = str(nd)
     it = iter(nd)
     head = [n for _, n in zip(range(ctx.evaluations % 3), it)]
